@@ -26,7 +26,39 @@ func scaleCases(tier string) []scalekit.Case {
 			out = append(out, scalekit.Case{Shape: "deep-target", N: n, V: v})
 		}
 	}
+	for _, n := range scale.Sizes(40, 257) {
+		out = append(out, scalekit.Case{Shape: "many-deviations", N: n})
+	}
 	return out
+}
+
+func checkManyDeviations(cs scalekit.Case) scalekit.Verdict {
+	files := scale.ManyDeviations(cs.N)
+	ms, errs, lerr := scalekit.Load(files, false)
+	if lerr != nil {
+		return scalekit.Bad("load-error", "loads", lerr.Error())
+	}
+	if len(errs) > 0 {
+		return scalekit.Bad("applicable-deviation-reported", "no errors", dump.Errors(errs))
+	}
+	top := yang.ToEntry(ms.Modules["b"]).Dir["top"]
+	for i := 0; i < cs.N; i++ {
+		l, ll, z := top.Dir[fmt.Sprintf("l%d", i)], top.Dir[fmt.Sprintf("ll%d", i)], top.Dir[fmt.Sprintf("z%d", i)]
+		if l == nil || fmt.Sprint(l.Default) != fmt.Sprintf("[d%d]", i) {
+			return scalekit.Bad("deviation-misplaced", fmt.Sprintf("l%d default d%d", i, i), fmt.Sprint(l != nil && true, l))
+		}
+		wantMax := uint64(18446744073709551615)
+		if i%2 == 0 {
+			wantMax = uint64(i + 1)
+		}
+		if ll == nil || ll.ListAttr == nil || ll.ListAttr.MaxElements != wantMax {
+			return scalekit.Bad("deviation-misplaced", fmt.Sprintf("ll%d max-elements %d", i, wantMax), fmt.Sprint(ll))
+		}
+		if (z == nil) != (i%3 == 0) {
+			return scalekit.Bad("deviation-misplaced", fmt.Sprintf("z%d removed: %v", i, i%3 == 0), fmt.Sprint(z == nil))
+		}
+	}
+	return scalekit.OK()
 }
 
 func flatTree(e *yang.Entry) map[string]string {
@@ -46,6 +78,9 @@ func flatTree(e *yang.Entry) map[string]string {
 }
 
 func checkScale(cs scalekit.Case) scalekit.Verdict {
+	if cs.Shape == "many-deviations" {
+		return checkManyDeviations(cs)
+	}
 	tp := scale.DeepPath("b", cs.N)
 	body := []string{
 		`deviation ` + tp + `/b:x { deviate replace { default changed; } }`,
